@@ -9,29 +9,29 @@ def thms(ns, names):
 
 REG = {
     "C01": {
-        "modules": ["VProofs.Props.C01", "VProofs.Props.Pandas", "VProofs.Props.PyList", "VProofs.Props.Numpy"],
+        "modules": ["VProofs.Props.C01", "VProofs.Props.Pandas", "VProofs.Props.PyList", "VProofs.Props.Numpy", "VProofs.Props.Shapes"],
         "theorems": thms("C01", ["C01_detect", "C01_pandas", "C01_pandas_model"]) + ["V.Pd.built_typeset", "V.PandasProps.C01_pandas_built",
-                                                                                     "V.PyProps.C01_list", "V.PyProps.C01_list_built", "V.NumpyProps.C01_numpy_built"],
+                                                                                     "V.PyProps.C01_list", "V.PyProps.C01_list_built", "V.NumpyProps.C01_numpy_built"] + ["V.Shapes.shapes_match"],
         "runners": ["pandas", "engine", "numpy", "list", "algebra", "frame", "api"],
         "relevant": ["contains", "detect"],
     },
     "C02": {
-        "modules": ["VProofs.Props.C02", "VProofs.Props.Pandas", "VProofs.Props.Numpy"],
+        "modules": ["VProofs.Props.C02", "VProofs.Props.Pandas", "VProofs.Props.Numpy", "VProofs.Props.Shapes"],
         "theorems": thms("C02", ["C02_order_indep", "C02_mutex_generic_pandas", "dtype_partition", "contains_dtypePred",
                                  "C02_mutex_object_pandas", "C02_mutex_string_pandas", "C02_witness_F10"])
                     + ["V.Pd.pandas_WF", "V.Pd.outputs_good", "V.Pd.goodB_sound", "V.PandasProps.C02_pandas",
-                       "V.Np.numpy_WF", "V.Np.excl_generic_np", "V.Np.excl_string_np", "V.Np.object_never_boolean", "V.NumpyProps.C02_numpy"],
+                       "V.Np.numpy_WF", "V.Np.excl_generic_np", "V.Np.excl_string_np", "V.Np.object_never_boolean", "V.NumpyProps.C02_numpy"] + ["V.Shapes.shapes_match"],
         "runners": ["pandas", "numpy"],
         "relevant": ["contains", "guard", "infer-path", "infer-outcome", "detect-path", "relation-missing"],
     },
     "C03": {
-        "modules": ["VProofs.Props.C03", "VProofs.Props.Pandas", "VProofs.Props.Numpy", "VProofs.Props.PyListRel"],
+        "modules": ["VProofs.Props.C03", "VProofs.Props.Pandas", "VProofs.Props.Numpy", "VProofs.Props.PyListRel", "VProofs.Props.Shapes"],
         "theorems": thms("C03", ["C03_infer_sound", "C03_lands_step", "C03_lands_pandas"])
                     + ["V.Pd.pandas_WF", "V.Pd.outputs_good", "V.Pd.goodB_sound", "V.Pd.built_typeset", "V.PandasProps.C03_pandas", "V.PandasProps.C03_pandas_model",
                        "V.PandasProps.infer_pandas_complete",
                        "V.Np.numpy_WF", "V.Np.lands_closed_np", "V.NumpyProps.C03_numpy", "V.NumpyProps.C03_numpy_model",
-                       "V.PyProps.C03_lands_list"],
-        "runners": ["pandas", "numpy", "list", "frame", "api"],
+                       "V.PyProps.C03_lands_list"] + ["V.Shapes.shapes_match"],
+        "runners": ["pandas", "numpy", "list", "frame", "api", "algebra"],
     },
     "C04": {
         "modules": ["VProofs.Props.C04", "VProofs.Props.Pandas", "VProofs.Props.Numpy"],
@@ -47,10 +47,10 @@ REG = {
         "relevant": ["contains", "guard", "infer-path", "infer-outcome", "detect-path", "relation-missing"],
     },
     "C16": {
-        "modules": ["VProofs.Props.C16", "VProofs.Props.Pandas", "VProofs.Props.Numpy"],
+        "modules": ["VProofs.Props.C16", "VProofs.Props.Pandas", "VProofs.Props.Numpy", "VProofs.Props.Shapes"],
         "theorems": thms("C16", ["C16_chain", "C16_nested_pandas", "C16_witness_F26", "C16_witness_F27", "on_path_of_contains"])
                     + ["V.Pd.pandas_WF", "V.Pd.outputs_good", "V.Pd.goodB_sound", "V.PandasProps.C16_pandas",
-                       "V.Np.numpy_WF", "V.Np.nested_np", "V.NumpyProps.C16_numpy"],
+                       "V.Np.numpy_WF", "V.Np.nested_np", "V.NumpyProps.C16_numpy"] + ["V.Shapes.shapes_match"],
         "runners": ["pandas", "numpy", "api"],
         "relevant": ["contains", "detect-path"],
     },
@@ -82,16 +82,16 @@ REG = {
                                  "C07_native_boolean", "C07_native_datetime", "C07_accepts_float_as_integer",
                                  "C07_accepts_complex_as_float", "C07_accepts_string_ip", "C07_accepts_string_uuid",
                                  "C07_accepts_string_email", "C07_accepts_string_geometry"]),
-        "runners": ["family", "pandas", "numpy", "list"],
+        "runners": ["family", "pandas", "numpy", "list", "api"],
         "partial": "string encodings rest on the element parsers (data of the model); the full grid of families x encodings x null patterns is explored by the family runner on the real code",
     },
     "C09": {
-        "modules": ["VProofs.Props.C09", "VProofs.Props.NumpyMore"],
+        "modules": ["VProofs.Props.C09", "VProofs.Props.NumpyMore", "VProofs.Props.Shapes"],
         "theorems": thms("C09", ["C09_total", "C09_contains_total_pandas", "C09_generic_catch_all",
                                  "C09_detect_total_pandas", "C09_total_guards", "C09_total_xforms", "C09_witness_F29",
                                  "C09_infer_total_pandas", "C09_hypotheses_executable"])
                     + ["V.Pd.infer_total", "V.Pd.guardsOk_of_outCol", "V.Pd.outputs_good", "V.traverse_total_inv",
-                       "V.NumpyProps.C09_contains_total_numpy", "V.NumpyProps.C09_generic_numpy", "V.NumpyProps.C09_guards_total_numpy"],
+                       "V.NumpyProps.C09_contains_total_numpy", "V.NumpyProps.C09_generic_numpy", "V.NumpyProps.C09_guards_total_numpy"] + ["V.Shapes.shapes_match"],
         "runners": ["pandas", "numpy", "list", "exotic", "api"],
         "relevant": ["contains", "guard", "xform-outcome", "infer-outcome", "detect-outcome", "relation-missing"],
     },
@@ -103,11 +103,11 @@ REG = {
         "partial": "the model cannot exhibit global state it does not name, nor hash-seed / process dependence: observed by the History runner",
     },
     "C11": {
-        "modules": ["VProofs.Props.C11", "VProofs.Props.PyList", "VProofs.Props.NumpyMore"],
+        "modules": ["VProofs.Props.C11", "VProofs.Props.PyList", "VProofs.Props.NumpyMore", "VProofs.Props.Shapes"],
         "theorems": thms("C11", ["C11_sim", "C11_membership_pandas", "C11_repeat_pandas", "C11_detect_pandas",
                                  "C11_detect_repeat_pandas", "C11_infer_pandas"])
                     + ["V.Pd.guard_accBag", "V.Pd.xform_equiBag", "V.Pd.infer_bag", "V.PyProps.C11_membership_list", "V.PyProps.C11_detect_list",
-                       "V.NumpyProps.isString_iff", "V.NumpyProps.C11_membership_numpy"],
+                       "V.NumpyProps.isString_iff", "V.NumpyProps.C11_membership_numpy"] + ["V.Shapes.shapes_match"],
         "runners": ["bag", "pandas", "numpy", "list"],
         "relevant": ["contains", "detect", "guard", "infer-path"],
         "partial": "k-fold repetition is proved for membership and detect_type only (infer_type under repetition, and the numpy / list back ends, are explored by the bag and sequence runners); DtBag (pd.to_datetime parses element by element) is a hypothesis",
@@ -136,7 +136,7 @@ REG = {
         "modules": ["VProofs.Props.C17"],
         "theorems": thms("C17", ["C17_schema_only", "C17_table", "C17_mapping_standard", "C17_mapping_standard_date",
                                  "C17_mapping_geometry", "C17_mapping_complete", "C17_complete_exact", "C17_mutex",
-                                 "C17_identity"]),
+                                 "C17_identity", "C17_general", "sparkTS_L0"]),
         "runners": ["spark"],
         "partial": "'triggers no Spark job' is runtime behaviour: observed through the status tracker, not provable",
     },
